@@ -626,19 +626,12 @@ def check_multi(name, tlist, form, o, r, items, ntraj, bad, obs_out=None):
             bad.append(("measurement", "measurement available although store_measurement is off"))
 
 
-SITES = {"final_ado_state": ("heom.HEOMResult.final_ado_state",
-                             "returns-system-state-when-final-only")}
-
-
-def report(ctx, name, form, o, tlist, sig, msg):
-    detail = {"solver": name, "eops_form": form, "options": o, "tlist": list(tlist)}
-    nops = len(build_eops(form)[1])
-    if (sig in SITES and o.get("store_ados") and o.get("store_final_state")
-            and not stores(o, nops) and "is Qobj" in msg):
-        site, signature = SITES[sig]
-    else:
-        site, signature = "solver:%s" % name.replace("_ket", "").replace("_improved", "").replace("_het", ""), sig
-    ctx.violation(site, signature, "%s(%s, e_ops=%s): %s" % (name, _short(o), form, msg), detail)
+def report(ctx, name, form, o, tlist, init, sig, msg):
+    detail = {"solver": name, "eops_form": form, "options": o, "tlist": list(tlist),
+              "initial_state": init}
+    site = "solver:%s" % name.replace("_ket", "").replace("_improved", "").replace("_het", "")
+    ctx.violation(site, sig, "%s(%s, init=%s, e_ops=%s): %s" % (name, _short(o), init, form, msg),
+                  detail)
 
 
 def _short(o):
@@ -646,16 +639,17 @@ def _short(o):
                     for k, v in sorted(o.items(), key=str))
 
 
-def one_cell(ctx, name, form, o, tlist, model_cases=None):
+def one_cell(ctx, name, form, o, tlist, init=None, model_cases=None):
     e_ops, items, meops = build_eops(form)
+    init = init or DEFAULT_INIT[name]
     bad = []
+    cell = (name, form, o, list(tlist), init)
     if name in SINGLE:
-        extra = {}
-        ref = reference(name, tlist, extra)
-        r = run_solver(name, tlist, e_ops, o)
+        ref = reference(name, tlist, o.get("method"), init)
+        r = run_solver(name, tlist, e_ops, o, init)
         out = {}
         check_single(name, tlist, form, o, r, items, ref, bad, out)
-        if model_cases is not None:
+        if model_cases is not None and "obs" in out:
             cls = {"heomsolve": "CHeom", "fmmesolve": "CFloquet"}.get(name, "CResult")
             mo = {"store_states": o.get("store_states"),
                   "store_final_state": bool(o.get("store_final_state")),
@@ -664,27 +658,46 @@ def one_cell(ctx, name, form, o, tlist, model_cases=None):
                   "store_measurement": ""}
             model_cases.append(({"kind": "script", "cls": cls, "opts": mo, "eops": meops,
                                  "mops": [], "pts": [(j, j, None) for j in range(len(tlist))]},
-                                out["obs"], (name, form, o, list(tlist))))
+                                out["obs"], cell))
     else:
-        r = run_solver(name, tlist, e_ops, o)
+        r = run_solver(name, tlist, e_ops, o, init)
         out = {}
         check_multi(name, tlist, form, o, r, items, 3, bad, out)
         if model_cases is not None:
             model_cases.append(({"kind": "mt", "opts": o, "nops": len(items)},
-                                out["mt"], (name, form, o, list(tlist))))
+                                out["mt"], cell))
     seen = set()
     for sig, msg in bad:
         if sig in seen:
             continue
         seen.add(sig)
-        report(ctx, name, form, o, tlist, sig, msg)
+        report(ctx, name, form, o, tlist, init, sig, msg)
     return bool(bad)
 
 
-def cells(ctx, rng):
-    tl_a = [0.0, 0.5, 1.0, 2.0]
-    tl_b = [0.0, 1.0]
-    tl_c = [0.25, 0.5, 0.75, 1.0, 3.0]
+TL_A = [0.0, 0.5, 1.0, 2.0]
+TL_B = [0.0, 1.0]
+TL_C = [0.25, 0.5, 0.75, 1.0, 3.0]
+TL_D = [0.0, 0.2, 0.4, 0.6, 0.8, 1.0]
+SM_VALUES = ["", "start", "middle", "end", True]
+
+
+def _extra_opts(name, rng, storing):
+    o = {}
+    if name == "heomsolve":
+        o["store_ados"] = True if storing else rng.random() < 0.5
+    if name == "fmmesolve":
+        o["store_floquet_states"] = True if storing else rng.random() < 0.5
+    if name in MULTI:
+        o["keep_runs_results"] = True if storing else rng.random() < 0.5
+    if name in ("ssesolve", "smesolve", "smesolve_het"):
+        o["store_measurement"] = rng.choice(SM_VALUES)
+    return o
+
+
+def base_cells(rng):
+    """the full product options x e_ops forms with the default method and the
+    default initial state, 4 output times"""
     out = []
     base = list(itertools.product([None, True, False], [True, False]))
     for name in SINGLE:
@@ -698,27 +711,74 @@ def cells(ctx, rng):
                 for ex in extra:
                     o = {"store_states": ss, "store_final_state": sf}
                     o.update(ex)
-                    out.append((name, form, o, tl_a))
+                    out.append((name, form, o, TL_A, None))
     for name in MULTI:
         for ss, sf in base:
             for keep in (True, False):
                 for form in FORMS:
                     o = {"store_states": ss, "store_final_state": sf, "keep_runs_results": keep}
                     if name in ("ssesolve", "smesolve", "smesolve_het"):
-                        o["store_measurement"] = rng.choice(["", "start", "middle", "end", True])
-                    out.append((name, form, o, tl_a))
-    if not ctx.quick:
-        # thorough: every cell again on two other time lists (2 points; 5
-        # unevenly spaced points not starting at 0), and every value of
-        # store_measurement for the stochastic solvers
+                        o["store_measurement"] = rng.choice(SM_VALUES)
+                    out.append((name, form, o, TL_A, None))
+    return out
+
+
+def strata():
+    """every (solver, registered integration method, legal initial state)"""
+    out = []
+    for name in SINGLE + MULTI:
+        if name == "mesolve_ket":
+            continue
+        for m in solver_methods(name):
+            for init in INITS[name]:
+                if name == "sesolve" and init == "oper" and m == "krylov":
+                    continue                      # krylov method evolves kets only
+                out.append((name, m, init))
+    return out
+
+
+def extended_cells(rng, per_stratum):
+    """stratified sample, drawn from ctx.seed: for every (solver, method,
+    initial state) one cell in which everything that can be stored is stored
+    (states, final state, ADO states, Floquet states, runs) and
+    `per_stratum - 1` cells with random options; 4-6 output times; the e_ops
+    form is random but contains a callback for the storing cell half of the
+    time so that the stored entries are checked against what the callback
+    saw in the *same* run."""
+    out = []
+    for name, m, init in strata():
+        for j in range(per_stratum):
+            storing = j == 0
+            if storing:
+                ss = rng.choice([True, True, None])
+                form = "none" if ss is None else rng.choice(FORMS)
+                sf = rng.random() < 0.7
+            else:
+                ss = rng.choice([None, True, False])
+                sf = rng.random() < 0.5
+                form = rng.choice(FORMS)
+            o = {"store_states": ss, "store_final_state": sf}
+            o.update(_extra_opts(name, rng, storing))
+            if m is not None:
+                o["method"] = m
+            out.append((name, form, o, rng.choice([TL_A, TL_C, TL_D, TL_D]), init))
+    return out
+
+
+def cells(ctx, rng):
+    out = base_cells(rng)
+    if ctx.quick:
+        out += extended_cells(rng, 2)
+    else:
         more = []
         for c in out:
-            for tl in (tl_b, tl_c):
+            for tl in (TL_B, TL_C):
                 o = dict(c[2])
                 if "store_measurement" in o:
-                    o["store_measurement"] = rng.choice(["", "start", "middle", "end", True])
-                more.append((c[0], c[1], o, tl))
+                    o["store_measurement"] = rng.choice(SM_VALUES)
+                more.append((c[0], c[1], o, tl, None))
         out += more
+        out += extended_cells(rng, 8)
     return out
 
 
@@ -726,23 +786,27 @@ def run_oracle(ctx, rng):
     cs = cells(ctx, rng)
     ctx.log("solver oracle: %d cells" % len(cs))
     model_cases = []
-    dist = {}
+    dist = {"solver": {}, "method": {}, "initial_state": {}, "n_times": {}}
     nbad = 0
-    for name, form, o, tl in cs:
+    for name, form, o, tl, init in cs:
         try:
-            nbad += one_cell(ctx, name, form, o, tl, model_cases)
+            nbad += one_cell(ctx, name, form, o, tl, init, model_cases)
         except Exception as e:              # a crash of a documented call is a finding
             import traceback
             ctx.violation("solver:%s" % name, "exception:" + type(e).__name__,
-                          "%s(%s, e_ops=%s) raised %r" % (name, _short(o), form, e),
+                          "%s(%s, init=%s, e_ops=%s) raised %r" % (name, _short(o), init, form, e),
                           {"solver": name, "eops_form": form, "options": o, "tlist": list(tl),
+                           "initial_state": init,
                            "traceback": traceback.format_exc()[-1500:]})
-        dist[name] = dist.get(name, 0) + 1
-        ctx.count_case(("solver", name, form, json.dumps(o, sort_keys=True, default=repr), tuple(tl)),
+        for k, v in (("solver", name), ("method", o.get("method", "default")),
+                     ("initial_state", init or DEFAULT_INIT[name]), ("n_times", len(tl))):
+            dist[k][str(v)] = dist[k].get(str(v), 0) + 1
+        ctx.count_case(("solver", name, form, json.dumps(o, sort_keys=True, default=repr),
+                        tuple(tl), init),
                        nontrivial=form not in ("none", "emptylist", "emptydict"))
     ctx.cov.setdefault("input_distribution", {})["solver_cells"] = dist
     ctx.log("solver oracle: %d cells, %d with findings" % (len(cs), nbad))
-    # K3: structure predicted by the model for every single-trajectory cell
+    # K3/K4: structure predicted by the model for every cell
     import c12
     if model_cases:
         try:
@@ -764,15 +828,15 @@ def run_oracle(ctx, rng):
             ctx.cov["traces_validated_against_impl"] += 1
             if model != im:
                 mism += 1
-                name, form, o, tl = cell
-                sig = "model-differs"
+                name, form, o, tl, init = cell
                 if mism <= 3:
-                    ctx.violation("corr:solver:%s" % name, sig,
+                    ctx.violation("corr:solver:%s" % name, "model-differs",
                                   "the real solver's result differs from the model's prediction",
                                   {"solver": name, "eops_form": form, "options": o,
-                                   "tlist": tl, "impl": im, "model": model})
+                                   "tlist": tl, "initial_state": init,
+                                   "impl": im, "model": model})
         ctx.log("K3 model-vs-solver: %d cells, %d mismatches" % (len(model_cases), mism))
-    ctx.sample({"solver_cell": [cs[-1][0], cs[-1][1], cs[-1][2]]})
+    ctx.sample({"solver_cell": [cs[-1][0], cs[-1][1], cs[-1][2], cs[-1][4]]})
 
 
 MT_HEADER = "From QV Require Import Model.C12_mt.\n"
@@ -789,4 +853,5 @@ def replay(ctx, payload):
     d = payload["detail"]
     if "solver" not in d:
         return
-    one_cell(ctx, d["solver"], d["eops_form"], d["options"], [float(t) for t in d["tlist"]])
+    one_cell(ctx, d["solver"], d["eops_form"], d["options"], [float(t) for t in d["tlist"]],
+             d.get("initial_state"))
